@@ -111,6 +111,11 @@ pub fn run(run: &mut Run) -> PResult {
     run.assume("the direction of the order among distinct invalid ranks is not prescribed and not asserted; only that cmp is a total order consistent with ==");
     run.assume("ranks are obtained by HandRank::from only (the struct's fields are public; hand-assembled inconsistent ranks are outside the statement)");
     super::regress::replay_dir(run, "C07", check_case)?;
+    {
+        let vals = [0u16, 1, 2, 10, 11, 166, 167, 1599, 1600, 3325, 7461, 7462, 7463, 7464, 8192, 8193, 15654, 32768, 65534, 65535];
+        let items: Vec<(u16, u16)> = vals.iter().flat_map(|a| vals.iter().map(move |b| (*a, *b))).collect();
+        super::common::disturbance_pass(run, &items, &|p| pair_clauses(p.0, p.1), &|p| ("C07.pair".into(), json!({"a": p.0, "b": p.1}), format!("({},{})", p.0, p.1)))?;
+    }
     let ranks: Vec<HandRank> = (0..=u16::MAX).map(HandRank::from).collect();
     let names: Vec<u8> = ranks.iter().map(|r| r.name as u8).collect();
     // pass 1: derived key
@@ -221,6 +226,9 @@ pub fn run(run: &mut Run) -> PResult {
 }
 
 pub fn check_case(clause: &str, case: &Value) -> Result<(), String> {
+    if clause.ends_with(".after_disturbance") {
+        return super::common::replay_after_disturbance(case, check_case);
+    }
     match clause {
         "C07.enum" => enum_clauses().map(|_| ()).map_err(|(_, m)| m),
         "C07.key" => {
